@@ -310,8 +310,9 @@ class Mirror(object):
         if name == "builtins.len" and len(args) == 1 and isT(x):
             # len(T(x)) is T(x).shape[0], i.e. x.shape[1]
             return tm.sub(tm.attr(x.a[0], "shape"), tm.const(1.0))
-        if name == "builtins.len" and self.equal_counts and len(args) == 1 and self.roles(x) == {"E"}:
-            # frame-label sequences of both sides have equal length (validate_structure: common end time)
+        if name == "builtins.len" and self.equal_counts and len(args) == 1 and self.roles(x) == {"E"} and not any(z.op == "call" and call_name(z) in ("np.unique", "builtins.set", "builtins.frozenset", "np.where", "np.flatnonzero") for z in tm.walk(x)):
+            # frame-label sequences of both sides have equal length (validate_structure: common end time); the number
+            # of *distinct* labels of a side is its own quantity
             back = Mirror(self.func, equal_counts=False).swap(x)
             return tm.call(fn, (back,), kw)
         if name == "builtins.sum" and len(args) == 1 and x.op == "comp":
